@@ -1,5 +1,132 @@
+import Casket.Model.Parser
+import Casket.Spec.Parser
 import Driver.Proto
-/- Streams of C10 (stub: not built yet). -/
+/-
+Streams of C10.
+  c10.lex     inputhex                          out = tokens  line:texthex,line:texthex,…
+  c10.parse   valid  env  fs  mainhex           out = ok|block|block…   or  err:class:file:line  or TIMEOUT / PANIC:…
+              valid = "-" (nil) or comma list of hex directive names
+              env   = comma list NAME=valuehex ; fs = comma list filename=contenthex (glob order)
+              block = keys(hex,comma);dirhex=file:line:texthex,…;…   (directives sorted by hex name)
+  c10.envloop same fields as c10.parse; inputs whose environment refers to itself (finding F19)
+  c10.rt      valid  env  fs  mainhex  asthex   round trip: `asthex` is the canonical rendering of the
+              configuration that was written; the judge demands the implementation returned exactly it
+-/
 namespace Driver.C10
-def streams : List Driver.Stream := []
+open Casket.Lexer Casket.Dispenser Casket.Parser
+
+def showLexTok (t : Token) : String := s!"{t.line}:{Driver.hex t.text}"
+
+def lexModel : List String → String
+  | [h] => match Driver.unhex h with
+    | some bs => ",".intercalate ((lex bs).map showLexTok)
+    | none => "bad-case"
+  | _ => "bad-case"
+
+def splitEq (s : String) : Option (String × String) :=
+  match s.splitOn "=" with
+  | [a, b] => some (a, b)
+  | _ => none
+
+def parseEnv (s : String) : Option Env :=
+  if s = "" then some [] else
+  (s.splitOn ",").mapM fun kv => do
+    let (k, v) ← splitEq kv
+    pure (strBytes k, ← Driver.unhex v)
+
+def parseFS (s : String) : Option FS :=
+  if s = "" then some ⟨[]⟩ else do
+  let l ← (s.splitOn ",").mapM fun kv => do
+    let (k, v) ← splitEq kv
+    pure (k, ← Driver.unhex v)
+  pure ⟨l⟩
+
+def parseValid (s : String) : Option (Option (List Bytes)) :=
+  if s = "-" then some none
+  else if s = "" then some (some [])
+  else ((s.splitOn ",").mapM Driver.unhex).map some
+
+structure Case where
+  cfg : Cfg
+  main : Bytes
+
+def parseCase : List String → Option Case
+  | valid :: env :: fs :: main :: _ => do
+    pure { cfg := { env := ← parseEnv env, fs := ← parseFS fs, valid := ← parseValid valid, envFuel := 300 },
+           main := ← Driver.unhex main }
+  | _ => none
+
+def showTok (t : Token) : String := s!"{t.file}:{t.line}:{Driver.hex t.text}"
+
+def showBlock (b : ServerBlock) : String :=
+  let ds := (b.tokens.map fun p => (Driver.hex p.1, p.2)).mergeSort fun a b => decide (a.1 ≤ b.1)
+  ";".intercalate ((",".intercalate (b.keys.map Driver.hex)) :: ds.map fun p => p.1 ++ "=" ++ ",".intercalate (p.2.map showTok))
+
+def showRes : Res (List ServerBlock) → String
+  | .ok bs => "|".intercalate ("ok" :: bs.map showBlock)
+  | .err c f l => s!"err:{c}:{f}:{l}"
+  | .panic m => "PANIC:" ++ m
+  | .timeout => "TIMEOUT"
+
+def modelFuel : Nat := 200000
+
+def parseModel (f : List String) : String :=
+  match parseCase f with
+  | none => "bad-case"
+  | some c => showRes (parse c.cfg modelFuel "Casketfile" c.main)
+
+def parseTokS (s : String) : Option Token :=
+  match s.splitOn ":" with
+  | [f, l, h] => do pure ⟨f, ← l.toNat?, ← Driver.unhex h⟩
+  | _ => none
+
+def parseDirS (s : String) : Option (Bytes × List Token) :=
+  match s.splitOn "=" with
+  | [k, ts] => do pure (← Driver.unhex k, ← (ts.splitOn ",").mapM parseTokS)
+  | _ => none
+
+def parseBlockS (s : String) : Option ServerBlock :=
+  match s.splitOn ";" with
+  | [] => none
+  | ks :: ds => do pure ⟨← (ks.splitOn ",").mapM Driver.unhex, ← ds.mapM parseDirS⟩
+
+open Casket.ParserSpec in
+/-- the implementation's canonical answer line → `Answer` (glue; an unreadable line is `none`) -/
+def parseAnswer (out : String) : Option Answer :=
+  if out == "TIMEOUT" then some .timeout
+  else if out.startsWith "PANIC:" then some (.panic (out.drop 6).toString)
+  else match out.splitOn "|" with
+    | "ok" :: bs => (bs.mapM parseBlockS).map .blocks
+    | _ => match out.splitOn ":" with
+      | ["err", c, f, l] => l.toNat?.map fun n => .error c f n
+      | _ => none
+
+/-- totality part of the property, on the implementation's answer -/
+def parseJudge (_ : List String) (out : String) : String :=
+  match parseAnswer out with
+  | some a => Casket.ParserSpec.totalVerdictA a
+  | none => "bad:unparsable:" ++ out
+
+/-- totality and structure preservation: the case carries the blocks that were written -/
+def rtJudge (f : List String) (out : String) : String :=
+  match f, parseAnswer out with
+  | [_, _, _, _, want], some a =>
+    match (Driver.unhex want).bind fun bs => parseAnswer (String.ofList (bs.map fun b => Char.ofNat b.toNat)) with
+    | some (.blocks exp) =>
+      if Casket.ParserSpec.totalVerdictA a != "ok" then Casket.ParserSpec.totalVerdictA a
+      else if Casket.ParserSpec.roundTrip exp a then "ok"
+      else "bad:not-preserved:the blocks returned are not the blocks written"
+    | _ => "bad:unparsable:case"
+  | _, _ => "bad:unparsable:" ++ out
+
+def lexJudge (_ : List String) (out : String) : String :=
+  if out.startsWith "PANIC" then "bad:panic:" ++ out else if out == "TIMEOUT" then "bad:timeout:" else "ok"
+
+def streams : List Driver.Stream := [
+  { name := "c10.lex", model := lexModel, judge := lexJudge },
+  { name := "c10.parse", model := parseModel, judge := parseJudge },
+  { name := "c10.rt", model := parseModel, judge := rtJudge },
+  { name := "c10.envloop", model := parseModel, judge := parseJudge }
+]
+
 end Driver.C10
